@@ -48,6 +48,20 @@ def segs(stream):
         [stream[i:i + 4000] for i in range(0, n, 4000)]
     yield "blocks37", [stream[i:i + 37] for i in range(0, n, 37)] if n < 3000 else \
         [stream[i:i + 8191] for i in range(0, n, 8191)]
+    # every CRLF of the head cut in two: a read ends with the CR, the next one starts with the LF
+    head_end = stream.find(b"\r\n\r\n")
+    head_end = n if head_end < 0 else head_end + 4
+    pieces, prev = [], 0
+    i = stream.find(b"\r\n", 0, head_end)
+    while 0 <= i < head_end and len(pieces) < 64:
+        pieces.append(stream[prev:i + 1])
+        prev = i + 1
+        i = stream.find(b"\r\n", i + 2, head_end)
+    pieces.append(stream[prev:])
+    out = []
+    for pc in pieces:
+        out += [pc[j:j + 8192] for j in range(0, len(pc), 8192)]
+    yield "crlf-split", [c for c in out if c]
 
 
 # ------------------------------------------------------------------ part A ------------------
@@ -102,6 +116,9 @@ def count_cases(N, shape, where):
             fl = [b"X_%d: v" % i for i in range(n)]
         elif shape == "repeated":
             fl = [b"X-A: v"] * n
+        elif shape == "folded":
+            # obsolete line folding (permitted by configuration here): one field over three physical lines is ONE field
+            fl = [b"X-%d: v\r\n  more\r\n\tand more" % i for i in range(n)]
         block = b"".join(f + b"\r\n" for f in fl)
         if where == "head":
             yield n, b"GET / HTTP/1.1\r\n" + block + b"\r\n"
@@ -292,6 +309,8 @@ def tasks_for(tier):
             for hm in (("drop",) if shape in ("plain", "repeated") else ("drop", "dangerous")):
                 T.append(("A", "count", {"limit_request_fields": N, "header_map": hm}, shape, "head"))
         T.append(("A", "count", {"limit_request_fields": N}, "plain", "trailer"))
+        if 0 < N <= 100:
+            T.append(("A", "count", {"limit_request_fields": N, "permit_obsolete_folding": True}, "folded", "head"))
     # pairs of dimensions: a small line limit with a small field limit etc.
     T.append(("A", "line", {"limit_request_line": 100, "limit_request_field_size": 16, "limit_request_fields": 2}, "-", "head"))
     T.append(("A", "size", {"limit_request_line": 16, "limit_request_field_size": 100, "limit_request_fields": 2}, "plain", "head"))
